@@ -18,8 +18,9 @@ def showEco (r : Eco.Response) : String :=
     toString r.shelfLifeMultiplier, toString r.exhaustionAfterHours, showBool r.isLimitingHours,
     showMap r.serverAchievementsDict, showStr r.relayAddress, showStr r.access, showStr r.connect] ++ "}"
 
-/-- the document an Eco case line carries: the first delivery of the first connection; a refused connection,
-no delivery or a silence stand for a request that could not be made (`request.call()` fails → `PacketSend`) -/
+/-- the document an Eco case line carries: the first delivery of the first connection; no delivery or a
+silence stand for a request that got no answer (`request.call()` fails → `PacketSend`; a refused connection is told apart
+by the HTTP entries: `SocketConnect`) -/
 def ecoDocument (script : List ConnScript) : Option Bytes :=
   match script with
   | .opened (.data d :: _) :: _ => some d
@@ -61,7 +62,8 @@ def entryEcoHttp (v6 : Bool) (args : List String) : String :=
       match na.script with
       | .opened (.data d :: _) :: _ => showRes showEco (ecoResult (some d)) ++ " ;; " ++ seen ++ s!" R0:-:{d.length}"
       | .opened _ :: _ => showRes showEco (ecoResult none) ++ " ;; " ++ seen
-      | _ => showRes showEco (ecoResult none) ++ " ;; H:-"
+      -- nothing listens: the connection is refused, which the client reports as such (`SocketConnect`)
+      | _ => showRes showEco (.err .socketConnect : Res Eco.Response) ++ " ;; H:-"
     | _, _, _ => "bad-case"
   | _ => "bad-case"
 
